@@ -6,7 +6,9 @@
 // LEN (declared payload bytes), TRAIL (bytes following the declared length inside the frame), CNT (sequence-counter
 // offset from the endpoint's symbolic start counter), VX (1: different protocol version), TX (1: different message
 // type), BAD (1: message-level invalid: error-in-payload flag set; 2: declared length exceeds the frame),
-// KIND (0 CMP frame, 1 TECMP-routed frame (first byte 0), 2 undersized buffer (< 8 bytes)).
+// KIND (0 CMP frame, 1 TECMP-routed frame (first byte 0), 2 undersized buffer (< 8 bytes)),
+// AGG (only with SEG 0, BAD 0, TRAIL 0: a second message of AGGLEN bytes follows in the same frame - 1 unsegmented,
+// 2 last segment (an orphan there), 3 first segment (opens a reassembly), 4 invalid (error-in-payload flag)).
 #include <asam_cmp/decoder.h>
 #include <asam_cmp/tecmp_decoder.h>
 #include <cstring>
@@ -130,6 +132,19 @@ using namespace ASAM::CMP;
 #ifndef FLG
 #define FLG 0x21
 #endif
+#ifndef AGG_0
+#define AGG_0 0
+#endif
+#ifndef AGG_1
+#define AGG_1 0
+#endif
+#ifndef AGG_2
+#define AGG_2 0
+#endif
+#ifndef AGG_3
+#define AGG_3 0
+#endif
+#define AGGLEN 4
 #ifndef DUP_0
 #define DUP_0 -1
 #endif
@@ -154,7 +169,7 @@ using namespace ASAM::CMP;
 #ifndef SAMEDEV
 #define SAMEDEV 0  // 1: the two endpoints share the device id (differ in stream id only); 2: share the stream id
 #endif
-DEF4(SEG, 0) DEF4(EP, 0) DEF4(LEN, 0) DEF4(TRAIL, 0) DEF4(CNT, 0) DEF4(VX, 0) DEF4(TX, 0) DEF4(BAD, 0) DEF4(KIND, 0) DEF4(DUP, 0)
+DEF4(SEG, 0) DEF4(EP, 0) DEF4(LEN, 0) DEF4(TRAIL, 0) DEF4(CNT, 0) DEF4(VX, 0) DEF4(TX, 0) DEF4(BAD, 0) DEF4(KIND, 0) DEF4(DUP, 0) DEF4(AGG, 0)
 #define LMAXS 24
 #define BUFMAX (LMAXS * 4)
 
@@ -214,6 +229,7 @@ struct Msg  // what one frame carries (symbolic contents)
     uint8_t data[LMAXS];
     uint8_t trail[LMAXS];
     uint64_t ts;
+    uint64_t ts2;   // timestamp of the frame's second message (AGG)
     uint32_t ifId;
     uint8_t flags;  // non-segmentation, non-error bits
 };
@@ -225,6 +241,7 @@ struct Open  // reference reassembly state of one endpoint
     int lastCnt;
     int vx, tx;
     int firstFrame;
+    bool firstIsSecond;  // the open message began with the second message of its frame (AGG 3)
     unsigned n;
     uint8_t bytes[BUFMAX];
 };
@@ -351,6 +368,7 @@ VP_HARNESS(h_seq)
         vp_bytes(g_msg[f].data, LMAXS);
         vp_bytes(g_msg[f].trail, LMAXS);
         g_msg[f].ts = vp_u64();
+        g_msg[f].ts2 = AGG[f] ? vp_u64() : 0;
         g_msg[f].ifId = vp_u32();
         g_msg[f].flags = (FLG) & 0xB3;  // concrete: a symbolic flags byte makes the segment-type dispatch symbolic for CBMC's simplifier
     }
@@ -394,6 +412,19 @@ VP_HARNESS(h_seq)
             for (int i = 0; i < TRAIL[f]; ++i)
                 m[16 + LEN[f] + i] = g_msg[f].trail[i];
             n = 8 + 16 + LEN[f] + TRAIL[f];
+            if (AGG[f])
+            {
+                uint8_t* m2 = m + 16 + LEN[f];
+                vp_put32(m2, static_cast<uint32_t>(g_msg[f].ts2 >> 32));
+                vp_put32(m2 + 4, static_cast<uint32_t>(g_msg[f].ts2));
+                vp_put32(m2 + 8, g_msg[f].ifId ^ 0x01010101u);
+                m2[12] = static_cast<uint8_t>(g_msg[f].flags | ((AGG[f] == 2 ? 3 : AGG[f] == 3 ? 1 : 0) << 2) | (AGG[f] == 4 ? 0x40 : 0));
+                m2[13] = 0xFE;
+                vp_put16(m2 + 14, AGGLEN);
+                for (int i = 0; i < AGGLEN; ++i)
+                    m2[16 + i] = g_msg[f].trail[i];
+                n += 16 + AGGLEN;
+            }
         }
         uint8_t* buf = static_cast<uint8_t*>(operator new(n));
         for (unsigned i = 0; i < n; ++i)
@@ -401,6 +432,8 @@ VP_HARNESS(h_seq)
 
         // ---- reference reassembler: what must be delivered by this frame, and the pending state afterwards
         bool deliver = false;
+        bool deliver2 = false;  // the frame's second message (AGG 1) is delivered as a packet of its own
+        bool hdrSecond = false; // the delivered reassembly began with the second message of frame hdrFrame
         int hdrFrame = f;     // frame whose header fields the delivered packet carries
         unsigned expN = 0;
         static uint8_t expBytes[BUFMAX];
@@ -424,6 +457,7 @@ VP_HARNESS(h_seq)
                 o.vx = VX[f];
                 o.tx = TX[f];
                 o.firstFrame = f;
+                o.firstIsSecond = false;
                 o.n = LEN[f];
                 for (int i = 0; i < LEN[f]; ++i)
                     o.bytes[i] = g_msg[f].data[i];
@@ -441,6 +475,7 @@ VP_HARNESS(h_seq)
                     {
                         deliver = true;
                         hdrFrame = o.firstFrame;
+                        hdrSecond = o.firstIsSecond;
                         expN = o.n;
                         for (unsigned i = 0; i < o.n; ++i)
                             expBytes[i] = o.bytes[i];
@@ -449,6 +484,27 @@ VP_HARNESS(h_seq)
                 }
                 else
                     o.open = false;
+            }
+            // second message of the frame: parsed only after a valid unsegmented first message (a segment or an invalid
+            // message ends the walk through the frame)
+            if (AGG[f] && !BAD[f] && SEG[f] == 0)
+            {
+                if (AGG[f] == 1)
+                    deliver2 = true;
+                else if (AGG[f] == 3)
+                {
+                    o.open = true;
+                    o.lastCnt = CNT[f];
+                    o.vx = VX[f];
+                    o.tx = TX[f];
+                    o.firstFrame = f;
+                    o.firstIsSecond = true;
+                    o.n = AGGLEN;
+                    for (int i = 0; i < AGGLEN; ++i)
+                        o.bytes[i] = g_msg[f].trail[i];
+                }
+                else
+                    o.open = false;  // orphan last segment / invalid message
             }
         }
 
@@ -476,8 +532,22 @@ VP_HARNESS(h_seq)
 #endif
         if (KIND[f] != 1 && PFX != 6)
         {
-            vp_assert(ps->size() == (deliver ? 1u : 0u), PL("a message is delivered exactly once, when its last segment (or the unsegmented message) arrives, and not otherwise"));
-            if (deliver && ps->size() == 1)
+            vp_assert(ps->size() == (deliver ? 1u : 0u) + (deliver2 ? 1u : 0u), PL("a message is delivered exactly once, when its last segment (or the unsegmented message) arrives, and not otherwise"));
+            if (deliver2 && ps->size() == 2)
+            {
+                const Packet& p = *(*ps)[1];
+                vp_assert(p.getDeviceId() == dev[e] && p.getStreamId() == stream[e], PL("delivered packet is tagged with its endpoint"));
+                vp_assert(p.getPayloadLength() == AGGLEN, PL("second message of an aggregated frame: delivered length is its declared length"));
+                if (p.getPayloadLength() == AGGLEN)
+                    for (unsigned i = 0; i < AGGLEN; ++i)
+                        vp_assert(p.getPayload().getRawPayload()[i] == g_msg[f].trail[i], PL("second message of an aggregated frame: delivered payload is its declared bytes"));
+                vp_assert(p.getVersion() == (VX[f] ? 2 : 1) && static_cast<uint8_t>(p.getMessageType()) == (TX[f] ? 3 : 1), PL("second message of an aggregated frame: version and message type of its frame"));
+                vp_assert(p.getTimestamp() == g_msg[f].ts2, PL("second message of an aggregated frame: its own timestamp"));
+                if (!TX[f])
+                    vp_assert(p.getInterfaceId() == (g_msg[f].ifId ^ 0x01010101u), PL("second message of an aggregated frame: its own interface id"));
+                vp_assert(p.getPayloadType() == 0xFE, PL("payload type is that of the message"));
+            }
+            if (deliver && ps->size() >= 1)
             {
                 const Packet& p = *(*ps)[0];
                 vp_assert(p.getDeviceId() == dev[e] && p.getStreamId() == stream[e], PL("delivered packet is tagged with its endpoint"));
@@ -491,9 +561,9 @@ VP_HARNESS(h_seq)
                 }
                 vp_assert(p.getVersion() == (VX[hdrFrame] ? 2 : 1), PL("version is that of the first segment"));
                 vp_assert(static_cast<uint8_t>(p.getMessageType()) == (TX[hdrFrame] ? 3 : 1), PL("message type is that of the first segment"));
-                vp_assert(p.getTimestamp() == g_msg[hdrFrame].ts, PL("timestamp is that of the first segment"));
+                vp_assert(p.getTimestamp() == (hdrSecond ? g_msg[hdrFrame].ts2 : g_msg[hdrFrame].ts), PL("timestamp is that of the first segment"));
                 if (!TX[hdrFrame])
-                    vp_assert(p.getInterfaceId() == g_msg[hdrFrame].ifId, PL("interface id is that of the first segment"));
+                    vp_assert(p.getInterfaceId() == (hdrSecond ? g_msg[hdrFrame].ifId ^ 0x01010101u : g_msg[hdrFrame].ifId), PL("interface id is that of the first segment"));
                 vp_assert((p.getCommonFlags() & 0xB3) == g_msg[hdrFrame].flags, PL("non-segmentation flags are those of the first segment"));
                 vp_assert(p.getPayloadType() == 0xFE, PL("payload type is that of the message"));
             }
